@@ -8,7 +8,8 @@
 //   mem_sweep [--throw=oom|bad_alloc] [--release] <scenario> <xsl> <xml> count
 //   mem_sweep [--throw=oom|bad_alloc] [--release] <scenario> <xsl> <xml> sweep <single|persist> <k-list>
 //     scenario : ctor | compile | parse | transform | transform_compiled | fail_message | fail_xpath | two | params
-//                (params = transform with number / expression top-level parameters set and never cleared)
+//                (params = transform with number / expression top-level parameters set and never cleared;
+//                 lowlevel = XSLTEngineImpl + StylesheetConstructionContextDefault: processStylesheet, destroy(root))
 //                (fail_message / fail_xpath run the same code as `transform`; the stylesheet decides)
 //     k-list   : comma separated indices and a-b ranges (1-based allocation ordinals), e.g. 1-40,77,500-520
 //     --throw  : what allocate() throws on the injected failure; default `oom` =
@@ -52,6 +53,14 @@
 #include <xalanc/XSLT/XSLTResultTarget.hpp>
 #include <xalanc/PlatformSupport/XSLException.hpp>
 #include <xalanc/XalanDOM/XalanDOMException.hpp>
+#include <xalanc/XalanSourceTree/XalanSourceTreeDOMSupport.hpp>
+#include <xalanc/XalanSourceTree/XalanSourceTreeParserLiaison.hpp>
+#include <xalanc/XSLT/XSLTProcessorEnvSupportDefault.hpp>
+#include <xalanc/XPath/XObjectFactoryDefault.hpp>
+#include <xalanc/XPath/XPathFactoryBlock.hpp>
+#include <xalanc/XSLT/XSLTEngineImpl.hpp>
+#include <xalanc/XSLT/StylesheetConstructionContextDefault.hpp>
+#include <xalanc/XSLT/StylesheetRoot.hpp>
 
 #include <cstdio>
 #include <cstdlib>
@@ -424,7 +433,7 @@ struct ApiCall                      // marks the extent of one top-level API cal
 
 // ------------------------------------------------------------------------------------------------
 // scenarios
-enum Scenario { SC_CTOR, SC_COMPILE, SC_PARSE, SC_TRANSFORM, SC_TRANSFORM_COMPILED, SC_TWO, SC_PARAMS };
+enum Scenario { SC_CTOR, SC_COMPILE, SC_PARSE, SC_TRANSFORM, SC_TRANSFORM_COMPILED, SC_TWO, SC_PARAMS, SC_LOWLEVEL };
 
 struct RunResult
 {
@@ -456,6 +465,26 @@ static int scenarioCalls(Scenario sc, XalanTransformer& xf, CountingMM& mm, std:
         XSLTInputSource xml(g_xml);
         { ApiCall a(mm); rc = xf.parseSource(xml, ps); }
         if (rc == 0) { ApiCall a(mm); rc = xf.destroyParsedSource(ps); }
+        break; }
+    case SC_LOWLEVEL: {
+        // the engine-level API the transformer itself is built on: a stylesheet root created by a construction context
+        // and given back through StylesheetConstructionContext::destroy(), a second one left to the context's destructor
+        xalanc::XalanSourceTreeDOMSupport       dom;
+        xalanc::XalanSourceTreeParserLiaison    liaison(dom, mm);
+        dom.setParserLiaison(&liaison);
+        xalanc::XSLTProcessorEnvSupportDefault  env(mm);
+        xalanc::XObjectFactoryDefault           xof(mm);
+        xalanc::XPathFactoryBlock               xpf(mm);
+        xalanc::XSLTEngineImpl                  proc(mm, liaison, env, dom, xof, xpf);
+        xalanc::XPathFactoryBlock               sxpf(mm);
+        xalanc::StylesheetConstructionContextDefault    cc(mm, proc, sxpf);
+        XSLTInputSource xsl(g_xsl);
+        xalanc::StylesheetRoot* root = 0;
+        { ApiCall a(mm); root = proc.processStylesheet(xsl, cc); }
+        if (root == 0) { rc = 1; break; }
+        { ApiCall a(mm); cc.destroy(root); }
+        XSLTInputSource xsl2(g_xsl);
+        { ApiCall a(mm); if (proc.processStylesheet(xsl2, cc) == 0) rc = 1; }
         break; }
     case SC_PARAMS:
         // top-level parameters held as XObjects (number) and as expressions, NOT cleared before the transformer
@@ -571,6 +600,7 @@ static bool parseScenario(const char* s, Scenario& sc)
     else if (n == "transform_compiled") sc = SC_TRANSFORM_COMPILED;
     else if (n == "two") sc = SC_TWO;
     else if (n == "params") sc = SC_PARAMS;
+    else if (n == "lowlevel") sc = SC_LOWLEVEL;
     else return false;
     return true;
 }
